@@ -305,6 +305,8 @@ func c20api(r *Run, s string) {
 
 // strings whose Unicode upper/lower case mapping or look-alike shape could be mistaken for A1
 var c20lookalikes = []string{"ı1", "ſ1", "ı$1", "$ſ$1", "aı1", "İ1", "K1", "Å1", "Ａ1", "A１", "ǅ1", "ß1", "ŉ1", "A1\u0000",
+	// long accepted spellings: absolute forms at the far corner, zero-padded rows
+	"$XFD$1048576", "$xfd$1048576", "XFD1048576", "$AAA$1000000", "$ABC$0000012", "A0000000001", "$A$00000000000000000001", "$XFD$0001048576",
 	"a1", "A1", "$a$1", "xfd1048576", "xfe1", "A1048577", " A1", "A1 ", "A 1", "A1:B2", "Sheet1!A1", "", "A", "1", "$", "A0", "$A$0"}
 
 var c20alpha = []string{"A", "Z", "a", "z", "0", "1", "9", "$", "+", "-", " ", ":", "!", "."}
@@ -508,6 +510,9 @@ func runC20(r *Run, rng *Rng, replay string) {
 	}
 	for i := 0; i < nApi; i++ {
 		c20api(r, c20randStr(rng))
+	}
+	for _, sp := range []string{"$XFD$1048576", "$xfd$1048575", "$ABC$0000012", "A0000000001", "$AAA$0000000000012"} {
+		c20spell(r, sp)
 	}
 	for _, s := range r.opsSample(10) {
 		r.Sample(s)
